@@ -13,10 +13,35 @@ class Rules:
         self.REV = z3.Function("REV", SeqV, SeqV)
         self.EVENS = z3.Function("EVENS", SeqV, SeqV)
         self.ODDS = z3.Function("ODDS", SeqV, SeqV)
+        self.apreds = {}
         self.preds = {}     # name -> (Function SeqV->Bool, elem predicate python callable(Val term)->Bool) : "all elements satisfy"
 
     def INT2STR(self, t):
         return z3.If(t >= 0, z3.IntToStr(t), z3.Concat(z3.StringVal("-"), z3.IntToStr(-t)))
+
+    def forall_pred_array(self, name, elem_pred, sort):
+        """'every entry of the map satisfies elem_pred' for arrays Val -> Val (dict.map): Store / Select / const-array rules"""
+        if name not in self.apreds:
+            self.apreds[name] = (z3.Function(name, sort, Bool), elem_pred)
+        return self.apreds[name][0]
+
+    def array_instances(self, exprs):
+        out = []
+        if not self.apreds:
+            return out
+        for t in self.subterms(exprs):
+            if not z3.is_app(t):
+                continue
+            k = t.decl().kind()
+            for name, (f, ep) in self.apreds.items():
+                dom = f.domain(0)
+                if k == z3.Z3_OP_STORE and t.sort() == dom:
+                    out.append(z3.Implies(z3.And(f(t.arg(0)), ep(t.arg(2))), f(t)))
+                elif k == z3.Z3_OP_SELECT and t.arg(0).sort() == dom:
+                    out.append(z3.Implies(f(t.arg(0)), ep(t)))
+                elif k == z3.Z3_OP_CONST_ARRAY and t.sort() == dom:
+                    out.append(f(t) == ep(t.arg(0)))
+        return out
 
     def forall_pred(self, name, elem_pred):
         if name not in self.preds:
@@ -45,6 +70,18 @@ class Rules:
         emitted = set()
         cur = list(exprs)
         out += self.nth_of_concat(exprs)
+        out += self.array_instances(exprs)
+        # every predicate is unfolded on every structured sequence term of the VC (congruence then carries it across equalities)
+        seeds = []
+        for t in self.subterms(exprs):
+            if z3.is_app(t) and t.sort() == SeqV and t.decl().kind() in (z3.Z3_OP_SEQ_CONCAT, z3.Z3_OP_SEQ_UNIT, z3.Z3_OP_SEQ_EMPTY,
+                                                                          z3.Z3_OP_SEQ_EXTRACT):
+                for pname, (f, ep) in self.preds.items():
+                    seeds.append(f(t))
+            elif z3.is_app(t) and t.sort() == SeqV and t.decl().name() in ("REV", "EVENS", "ODDS"):
+                for pname, (f, ep) in self.preds.items():
+                    seeds.append(f(t))
+        cur = cur + seeds
         for _ in range(rounds):
             new = []
             for t in self.subterms(cur):
@@ -139,9 +176,10 @@ class Rules:
                     rules.append(z3.Implies(z3.And(f(s_), j >= 0, j < z3.Length(s_)), ep(t)))
         return rules
 
-    def last_split_unique(self, pname, a, sep, b, c, d):
-        """ground instance of last-separator uniqueness: a++[sep]++b = c++[sep]++d, P(b), P(d), not elemP(sep) => a=c and b=d
+    def last_split_unique(self, pname, a, m1, b, c, m2, d):
+        """ground instance of last-separator uniqueness:
+             a ++ [m1] ++ b = c ++ [m2] ++ d,  P(b), P(d), not elemP(m1), not elemP(m2)   =>   a = c, m1 = m2, b = d
         (P = 'no element is a separator'); proved as `last_mark_unique` in lemmas/SeqRules.lean"""
-        f, _ = self.preds[pname]
-        return z3.Implies(z3.And(z3.Concat(a, z3.Unit(sep), b) == z3.Concat(c, z3.Unit(sep), d), f(b), f(d)),
-                          z3.And(a == c, b == d))
+        f, ep = self.preds[pname]
+        return z3.Implies(z3.And(z3.Concat(a, z3.Unit(m1), b) == z3.Concat(c, z3.Unit(m2), d), f(b), f(d), z3.Not(ep(m1)), z3.Not(ep(m2))),
+                          z3.And(a == c, b == d, m1 == m2))
